@@ -99,7 +99,7 @@ def _child_run(machine, verif_seed: int, prop: str, index: int, cfg: Dict):
     return body
 
 
-def _worker(machine, prop, verif_seed, cfg, indices, deadline, out_fd, max_keep):
+def _worker(machine, prop, verif_seed, cfg, indices, deadline, out_fd, max_keep, open_entries=None):
     agg = {
         "runs": 0,
         "counters": {},
@@ -112,6 +112,7 @@ def _worker(machine, prop, verif_seed, cfg, indices, deadline, out_fd, max_keep)
         "cut_short": False,
         "failed_runs": 0,
         "digests": {},
+        "suppressed": {},
     }
     collect = bool(cfg.get("_collect_digests"))
     for index in indices:
@@ -138,9 +139,28 @@ def _worker(machine, prop, verif_seed, cfg, indices, deadline, out_fd, max_keep)
             agg["distinct"].add(res.get("shape"))
         if res.get("verdicts"):
             agg["failed_runs"] += 1
-            if len(agg["failures"]) < max_keep:
+            verdicts = res["verdicts"]
+            if open_entries:
+                # attribution to open known findings happens here, in parallel, with children of this same worker
+                from . import triage
+
+                scenario = None
+                remaining = []
+                for v in verdicts:
+                    if not any(triage.matches(e, v) for e in open_entries):
+                        remaining.append(v)
+                        continue
+                    if scenario is None:
+                        scenario = machine.generate(kernel.run_rng(verif_seed, prop, index), dict(cfg, _index=index))
+                    entry = triage.attribute(machine, scenario, v, open_entries)
+                    if entry is None:
+                        remaining.append(v)
+                    else:
+                        agg["suppressed"][entry["id"]] = agg["suppressed"].get(entry["id"], 0) + 1
+                verdicts = remaining
+            if verdicts and len(agg["failures"]) < max_keep:
                 agg["failures"].append(
-                    {"index": index, "verdicts": res["verdicts"], "digest": res.get("digest")}
+                    {"index": index, "verdicts": verdicts, "digest": res.get("digest")}
                 )
         if len(agg["samples"]) < 1 and res.get("nontrivial"):
             agg["samples"].append(index)
@@ -158,6 +178,7 @@ def run_batch(
     wall_budget: Optional[float] = None,
     first_index: int = 0,
     max_keep: int = 40,
+    open_entries=None,
 ) -> Dict:
     """
     Execute run indices first_index .. first_index+n_runs-1, striped over `workers`
@@ -179,7 +200,7 @@ def run_batch(
                 for _, fd in procs:
                     os.close(fd)
                 indices = range(first_index + wid, first_index + n_runs, workers)
-                _worker(machine, prop, verif_seed, cfg, indices, deadline, w, max_keep)
+                _worker(machine, prop, verif_seed, cfg, indices, deadline, w, max_keep, open_entries)
             except BaseException:
                 try:
                     _write_all(w, json.dumps({"worker_error": traceback.format_exc()}).encode())
@@ -212,6 +233,7 @@ def run_batch(
         "failed_runs": 0,
         "worker_errors": [],
         "digests": {},
+        "suppressed": {},
     }
     for pid, fd in procs:
         os.close(fd)
@@ -235,6 +257,8 @@ def run_batch(
         total["harness_errors"].extend(agg["harness_errors"])
         total["samples"].extend(agg["samples"])
         total["digests"].update(agg.get("digests", {}))
+        for k, v in agg.get("suppressed", {}).items():
+            total["suppressed"][k] = total["suppressed"].get(k, 0) + v
         total["cut_short"] = total["cut_short"] or agg["cut_short"]
     total["failures"].sort(key=lambda f: f["index"])
     total["timeouts"].sort()
